@@ -14,7 +14,8 @@ EXPLANATION = (
     "four mode functions (see C05) projected on component and hook events: on_enable of every component in list order precedes the "
     "mode's init hook, the autonomous mode's on_enable and every execute(); every exit of an enabled mode function (driver-station "
     "change, endCompetition flag, loop bound) passes on_disable of every component; _disabled starts with on_disable before "
-    "disabledInit; _test touches no component; enable, execute and disable iterate one and the same list.  C06.O4: endCompetition "
+    "disabledInit; _test touches no component; enable, execute and disable iterate one and the same list; the same skeletons hold on the "
+    "variant in which all components are instances of one class (anything keyed by type(component)).  C06.O4: endCompetition "
     "sets the robot's and the selector's exit flag and every mode loop has an exit path on its flag."
 )
 RULE = "one case = one path of _create_components / of a mode function; compared with the specification skeleton"
